@@ -5,6 +5,7 @@ import Jap.Lemmas.NamespaceSpec
 import Jap.Lemmas.NamespaceDict
 import Jap.Core.NamespaceMeta
 import Jap.Lemmas.NamespaceMeta
+import Jap.Lemmas.NamespaceEq
 /-!
 # C11 — Namespace behaves as a nested mapping addressed by dotted keys
 
@@ -203,6 +204,24 @@ theorem C11_dict_roundtrip (clash : List String) (n : Nat) (d : KV)
 theorem C11_dict_roundtrip_mixed_list_counterexample :
     (expandDict [] 4 [(plain "a", .lst [.dct [(plain "b", .atom 1)], .atom 2])]).map asDict
       = .ok [(plain "a", .lst [.ns [(plain "b", .atom 1)], .atom 2])] := by rfl
+
+/-! ## equality and clone -/
+
+/-- Python `==` is reflexive on every value whose mappings have pairwise different keys -/
+theorem C11_eq_refl (v : V) (h : uniqAllV v) : veq v v = true := veq_refl v h
+
+/-- every state reachable from the empty namespace by assignments (of values with unique keys), deletions, pops and
+    `only_unset` assignments has unique keys at every depth — through dict values too — and so `ns.clone() == ns` -/
+theorem C11_clone_eq (clash : List String) (ops : List Op) (h : ∀ o ∈ ops, opUniq o) :
+    uniqAllKV (runC clash ops []) ∧
+    veq (.ns (clone (runC clash ops []))) (.ns (runC clash ops [])) = true := by
+  have hu : uniqAllKV (runC clash ops []) := uniqAllKV_run clash ops [] h (by simp [uniqAllKV])
+  exact ⟨hu, veq_refl _ (by simpa [uniqAllV, clone] using hu)⟩
+
+/-- the hypothesis is needed: with a repeated key (impossible in a Python dict) `==` as modelled is not reflexive -/
+theorem C11_eq_refl_needs_unique_keys :
+    veq (.dct [(plain "a", .atom 1), (plain "a", .atom 2)]) (.dct [(plain "a", .atom 1), (plain "a", .atom 2)]) = false := by
+  simp [veq, kvSub, kvFind]
 
 /-! ## keys / values / truthiness / as_flat agree with `items` -/
 
